@@ -122,6 +122,12 @@ def transpile_token(
                 temp += char
         return indent_str(f'stack.append("{temp}")', indent)
     elif token.name == TokenType.NUMBER:
+        if "°" not in token.value and "." in token.value and token.value != ".":
+            # A decimal literal is exactly digits / 10 ** k; nsimplify would
+            # "recognise" nearby closed forms (1.4142135623730951 -> sqrt(2))
+            return indent_str(
+                f'stack.append(sympy.Rational("{token.value}"))', indent
+            )
         parts = [
             "0.5" if part == "." else part for part in token.value.split("°")
         ]
